@@ -568,3 +568,111 @@ func fieldMutatedAfterConstruction(p *Prog, fld *types.Var) bool {
 	}
 	return mutatedFieldMemo[fld]
 }
+
+// deepCopyRule (C08/C09): the address a delete request is matched with is a private copy of the request's client
+// address. Two conditions keep it private and faithful:
+//   - the destination handed to util.DeepCopy is a fresh local that nothing was stored into before (encoding/json
+//     decodes *into* what a pointer field already points to: a destination pre-filled with the peer's own device
+//     address gets that shared object overwritten by the request);
+//   - util.DeepCopy copies through encoding/json, the codec the data model is written for (a codec that drops zero
+//     values behind pointers turns feature number 0 into "no feature").
+func deepCopyRule(p *Prog, r *Report, rule string, m mgrSpec) {
+	r.Rule(rule, "the client address a delete request is matched with is a private, faithful copy: util.DeepCopy gets a fresh, untouched local as destination, and it copies through encoding/json")
+	// the helper itself
+	var helper *ssa.Function
+	for _, fn := range p.RepoFns("util") {
+		if originName(fn) == "DeepCopy" && fn.Signature.Recv() == nil && fn.Blocks != nil {
+			helper = fn
+		}
+	}
+	if helper == nil {
+		r.Undecided(rule, "anchor:util.DeepCopy", "", "function not found")
+		return
+	}
+	enc := map[string]bool{}
+	forEachCallOwn(helper, func(site ssa.CallInstruction) {
+		if c := site.Common().StaticCallee(); c != nil && strings.HasPrefix(fnPkgPath(c), "encoding/") {
+			enc[fnPkgPath(c)+"."+c.Name()] = true
+		}
+	})
+	okCodec := enc["encoding/json.Marshal"] && enc["encoding/json.Unmarshal"] && len(enc) == 2
+	r.Check(rule, "util.DeepCopy|codec", okCodec, p.Pos(helper.Pos()), fmt.Sprintf("copies through %v", sortedKeys(enc)))
+	// its destinations in the manager
+	n := 0
+	fn := p.Method("spine", m.Type, m.Remove)
+	if fn == nil {
+		r.Undecided(rule, "anchor:"+m.Type+"."+m.Remove, "", "method not found")
+		return
+	}
+	p.InScope(fn, func() {
+		forEachCall(fn, func(site ssa.CallInstruction) {
+			c := site.Common().StaticCallee()
+			if c == nil || originName(c) != "DeepCopy" || !strings.HasSuffix(fnPkgPath(c), "/util") || len(site.Common().Args) != 2 {
+				return
+			}
+			n++
+			dst := site.Common().Args[1]
+			al, isAl := dst.(*ssa.Alloc)
+			touched := ""
+			if isAl && al.Referrers() != nil {
+				var scan func(v ssa.Value, d int)
+				scan = func(v ssa.Value, d int) {
+					if d > 3 || v.Referrers() == nil {
+						return
+					}
+					for _, ref := range *v.Referrers() {
+						switch x := ref.(type) {
+						case *ssa.Store:
+							if x.Addr == v && instrDominates(x, site.(ssa.Instruction)) {
+								if k, isK := x.Val.(*ssa.Const); !(isK && k.Value == nil) {
+									touched = "assigned " + Path(x.Val) + " at " + p.InstrPos(x)
+								}
+							}
+						case *ssa.FieldAddr:
+							scan(x, d+1)
+						}
+					}
+				}
+				scan(al, 0)
+			}
+			r.Check(rule, fmt.Sprintf("spine.%s.%s|destination#%d", m.Type, m.Remove, n), isAl && touched == "", p.InstrPos(site.(ssa.Instruction)), fmt.Sprintf("destination %s is a fresh local: %v; before the copy it was %s", Path(dst), isAl, orStr(touched, "untouched")))
+		})
+	})
+	r.Floor(rule, "DeepCopy calls in "+m.Remove, n, 1)
+}
+
+// featureTypeKept (C08/C09): the grant conditions compare the type a feature announces; the constructors of remote
+// and local features hand the type they are given to the base feature unchanged (a constructor that maps unknown
+// types to Generic makes every such feature pass the type check of any server).
+func featureTypeKept(p *Prog, r *Report, rule string) {
+	r.Rule(rule, "a feature keeps the type it was announced with: NewFeatureRemote and NewFeatureLocal pass their type parameter unchanged to the base feature (the role/type checker accepts Generic for any type)")
+	n := 0
+	for _, name := range []string{"NewFeatureRemote", "NewFeatureLocal"} {
+		for _, fn := range p.RepoFns("spine") {
+			if fn.Name() != name || fn.Signature.Recv() != nil || fn.Blocks == nil {
+				continue
+			}
+			var ftypeParam *ssa.Parameter
+			for _, prm := range fn.Params {
+				if isNamed(prm.Type(), "model", "FeatureTypeType") {
+					ftypeParam = prm
+				}
+			}
+			forEachCallOwn(fn, func(site ssa.CallInstruction) {
+				c := site.Common().StaticCallee()
+				if c == nil || c.Name() != "NewFeature" || !p.IsRepoFn(c) {
+					return
+				}
+				n++
+				ok := false
+				for _, a := range site.Common().Args {
+					if isNamed(a.Type(), "model", "FeatureTypeType") {
+						ok = ftypeParam != nil && a == ssa.Value(ftypeParam)
+					}
+				}
+				r.Check(rule, "spine."+name+"|type-kept", ok, p.InstrPos(site.(ssa.Instruction)), "the base feature is built with the constructor's own type parameter")
+			})
+		}
+	}
+	r.Floor(rule, "feature constructors", n, 2)
+}
